@@ -275,6 +275,21 @@ def job_check(kind, case, rec):
                         rec.close("frame-custom-point-data", float(np.abs(np.asarray(pd["MyPoint"]).reshape(-1) - 2.0 * seen[i]["u"][:, 0]).max()), 0.0)
                         rec.close("frame-custom-cell-data", float(np.abs(np.asarray(cd["MyCell"][0]).reshape(-1) - F[0, 0].mean(0)).max()), 1e-15)
         rec.label(f"frames={min(len(seen), 6)}")
+        if not raised and not stop and len(seen) >= 1 and len(flat) % 2 == 1:
+            # the same job evaluated a second time into another file (continuing from the final state): again one frame per
+            # converged substep, stamped 0, 1, 2, ...
+            n1 = len(seen)
+            try:
+                job.evaluate(filename="again.xdmf", point_data_default=True, cell_data_default=False, tol=1e-9, **ekw)
+                n2 = len(seen) - n1
+                with meshio.xdmf.TimeSeriesReader("again.xdmf") as rd2:
+                    rd2.read_points_cells()
+                    rec.require("second-evaluation:frames=converged-substeps", rd2.num_steps == n2, [rd2.num_steps, n2])
+                    times = [rd2.read_data(i)[0] for i in range(rd2.num_steps)]
+                    rec.require("second-evaluation:time=0,1,2,...", times == list(range(rd2.num_steps)), times[:4])
+                rec.label("job-evaluated-twice")
+            except ValueError:
+                rec.label("second-evaluation-did-not-converge")
 
 
 # ---------------------------------------------------------------------------------------------------------------
